@@ -75,6 +75,14 @@ theorem toImg_eq_none_iff {α : Type} (ny nx : Nat) (data : Nat → Nat → α) 
   unfold toImg InImage
   by_cases h : 0 ≤ q.1 ∧ q.1 < ny ∧ 0 ≤ q.2 ∧ q.2 < nx <;> simp [h]
 
+theorem toImg_congr {α : Type} (ny nx : Nat) (a b : Nat → Nat → α) (h : ∀ r c, r < ny → c < nx → a r c = b r c) :
+    toImg ny nx a = toImg ny nx b := by
+  funext q
+  unfold toImg
+  by_cases hq : 0 ≤ q.1 ∧ q.1 < ny ∧ 0 ≤ q.2 ∧ q.2 < nx
+  · rw [if_pos hq, if_pos hq, h _ _ (by omega) (by omega)]
+  · rw [if_neg hq, if_neg hq]
+
 /-- **The array of a crop is the whole partial image, restricted to the crop and re-indexed.** -/
 theorem toImg_crop {α : Type} (ny nx r0 c0 ny' nx' : Nat) (data : Nat → Nat → α)
     (hfit : r0 + ny' ≤ ny ∧ c0 + nx' ≤ nx) :
